@@ -132,6 +132,34 @@ fn layout_fasta(recs: &[Rec], width: Option<usize>, crlf: bool, final_newline: b
     out
 }
 
+/// The harness's own FASTQ layout: sequence and quality wrapped consistently at width w (the reader documents
+/// that such files are allowed), optional CRLF.
+fn layout_fastq(recs: &[Rec], width: Option<usize>, crlf: bool) -> Vec<u8> {
+    let nl: &[u8] = if crlf { b"\r\n" } else { b"\n" };
+    let mut out = vec![];
+    for r in recs {
+        out.push(b'@');
+        out.extend_from_slice(r.id.as_bytes());
+        if let Some(d) = &r.desc {
+            out.push(b' ');
+            out.extend_from_slice(d.as_bytes());
+        }
+        out.extend_from_slice(nl);
+        let w = width.unwrap_or(r.seq.len().max(1));
+        for ch in r.seq.chunks(w) {
+            out.extend_from_slice(ch);
+            out.extend_from_slice(nl);
+        }
+        out.extend_from_slice(b"+");
+        out.extend_from_slice(nl);
+        for ch in r.qual.chunks(w) {
+            out.extend_from_slice(ch);
+            out.extend_from_slice(nl);
+        }
+    }
+    out
+}
+
 fn to_crlf(data: &[u8]) -> Vec<u8> {
     let mut o = Vec::with_capacity(data.len() + 16);
     for &b in data {
@@ -292,6 +320,24 @@ impl C11 {
             ctx.eval(recs.len() as u64);
             self.compare(ctx, "crlf", "fastq", &recs, got, &fq, "CRLF line ends");
         }
+        if all_ok && recs.iter().all(|r| !r.seq.is_empty()) {
+            // wrapped FASTQ (sequence and quality wrapped alike), incl. records spanning hundreds of lines
+            for _ in 0..ncomb.min(3) {
+                let w2 = *rng.pick(&[None, Some(1), Some(1), Some(2), Some(5), Some(60), Some(61)]);
+                let crlf = rng.chance(1, 3);
+                let alt = layout_fastq(&recs, w2, crlf);
+                let got = self.read_fastq(&alt, *rng.pick(&caps), *rng.pick(&chunks), rng.next());
+                ctx.eval(recs.len() as u64);
+                let lines = recs.iter().map(|r| (r.seq.len() + w2.unwrap_or(r.seq.len()).max(1) - 1) / w2.unwrap_or(r.seq.len()).max(1)).max().unwrap_or(0);
+                if lines >= 256 {
+                    ctx.count("fastq_records_spanning_256+_lines", 1);
+                }
+                if !self.compare(ctx, "rewrapped", "fastq", &recs, got, &alt, &format!("line width {:?}, crlf {}", w2, crlf)) {
+                    all_ok = false;
+                    break;
+                }
+            }
+        }
         // --- FASTA (no qualities)
         let frecs: Vec<Rec> = recs.iter().map(|r| Rec { qual: vec![], ..r.clone() }).collect();
         let wrap = *rng.pick(&[None, Some(1), Some(2), Some(7), Some(60), Some(3)]);
@@ -336,6 +382,7 @@ impl C11 {
         if all_ok && fa_ok {
             for (kind, data, exp) in [(fastx::Kind::FASTQ, &fq, &recs), (fastx::Kind::FASTA, &fa, &frecs)] {
                 let d2 = data.clone();
+                let pre_bytes: Vec<u8> = (0..rng.range(1, 40)).map(|_| *rng.pick(b">@+ACGT\n!x")).collect();
                 let r = guard(move || {
                     let mut er = fastx::EitherRecords::new(BufReader::with_capacity(7, Chunky::new(d2.clone(), 5, 3)));
                     let k = er.kind().map_err(|e| e.to_string())?;
@@ -347,6 +394,24 @@ impl C11 {
                     }
                     let k2 = fastx::get_kind(&d2[..]).map(|x| x.1).map_err(|e| e.to_string())?;
                     let k3 = fastx::get_kind_seek(&mut Cursor::new(&d2[..])).map_err(|e| e.to_string())?;
+                    // sniffing a stream that is not at offset 0 (payload behind something already consumed): the
+                    // position must be left where it was, so that the selected parser reads the same records
+                    let mut pre = pre_bytes.clone();
+                    let off = pre.len() as u64;
+                    pre.extend_from_slice(&d2);
+                    let mut cur = Cursor::new(pre);
+                    cur.set_position(off);
+                    let k4 = fastx::get_kind_seek(&mut cur).map_err(|e| e.to_string())?;
+                    if k4 != k3 || cur.position() != off {
+                        return Err(format!("get_kind_seek at stream offset {}: kind {:?} (at offset 0: {:?}), position afterwards {}", off, k4, k3, cur.position()));
+                    }
+                    let n_after = match k4 {
+                        fastx::Kind::FASTA => fasta::Reader::new(cur).records().filter(|r| r.is_ok()).count(),
+                        fastx::Kind::FASTQ => fastq::Reader::new(cur).records().filter(|r| r.is_ok()).count(),
+                    };
+                    if n_after != v.len() {
+                        return Err(format!("after get_kind_seek at stream offset {} the parser read {} records instead of {}", off, n_after, v.len()));
+                    }
                     Ok::<_, String>((k, k2, k3, v))
                 });
                 ctx.eval(exp.len() as u64 + 3);
@@ -532,7 +597,16 @@ impl C11 {
         } else {
             (0..n).map(|_| *rng.pick(b"@>+\n\r AC\xff\x00\t;")).collect()
         };
-        let mutated = rng.chance(1, 2);
+        let many_lines = rng.chance(1, 25);
+        if many_lines {
+            // a header line followed by hundreds of short lines and no separator
+            bytes = vec![*rng.pick(b"@>")];
+            bytes.extend_from_slice(b"id\n");
+            for _ in 0..rng.range(250, 700) {
+                bytes.extend_from_slice(*rng.pick(&[&b"A\n"[..], b"\n", b"AC\r\n", b"N\n"]));
+            }
+        }
+        let mutated = !many_lines && rng.chance(1, 2);
         if mutated {
             let (recs, _) = gen_records(rng, rng.clone().range(1, 4), 30, false);
             bytes = if rng.chance(1, 2) { write_fastq(&recs).unwrap_or_default() } else { write_fasta(&recs, Some(5)).unwrap_or_default() };
